@@ -19,7 +19,7 @@ func init() {
 	register(&Check{
 		ID: "C17", Level: "exploration", Primary: "schedules", EvalCount: "startups",
 		Rule: "one evaluation = a fresh server whose Run is started while 1..8 pollers spin on Ready(); the first poller iteration that observes true immediately dials the address and performs a verified bind, and " +
-			"keeps dialing at PRNG-chosen later instants until Stop is called. Addresses cover IPv4, hostname, bracketed and unbracketed IPv6 loopback and the empty-host form. Failing addresses (empty, no port, " +
+			"keeps dialing at PRNG-chosen later instants until Stop is called. Addresses cover IPv4, hostname, bracketed and unbracketed IPv6 loopback and the empty-host form. Failing addresses (empty, no port, IP literals of the documentation ranges that are not assigned to the host, " +
 			"bracket errors, invalid IPv4, unresolvable host, a port the harness keeps bound, a port served by another running gldap server, and a TLS configuration without certificates) must make Run return an error while Ready() - polled during the call and for a while after - never reports true. " +
 			"Between Ready and Stop the harness also lets Accept fail temporarily (descriptor shortage), keeps 300/520/1100 idle connections open and parks silent peers on a TLS listener: a new connection must still be served within 10s afterwards / meanwhile. Runs under GOMAXPROCS 1, 4 and 16. A refused dial after an observed true is a logical fact, not a timing judgement. " +
 			"distinct_nontrivial = distinct (address form, #pollers, GOMAXPROCS, whether a poller saw false before true) combinations",
@@ -192,6 +192,9 @@ func c17Run(c *Ctx) {
 		failing = append(failing, other.Addr)
 		mustFail[other.Addr] = true
 	}
+	// well-formed IP literals that are not assigned to this host (documentation ranges): either Run refuses them, or
+	// what it listens on can be dialled as written
+	failing = append(failing, fmt.Sprintf("192.0.2.77:%d", freePort()), fmt.Sprintf("[2001:db8::77]:%d", freePort()))
 	// a valid, free address but a TLS configuration without any certificate source
 	const tlsNoCert = "tls-config-without-certificates@"
 	failing = append(failing, tlsNoCert+fmt.Sprintf("127.0.0.1:%d", freePort()))
